@@ -3071,10 +3071,7 @@ PPL::Grid::wrap_assign(const Variables_Set& vars,
         // `x' may wrap to a value modulo the `wrap_frequency'.
         add_grid_generator(parameter(wrap_frequency * x));
       }
-      else if ((o == OVERFLOW_IMPOSSIBLE && 2*f_n >= wrap_frequency)
-               || (f_n == wrap_frequency)) {
-        // In these cases, `x' can only take a unique (ie constant)
-        // value.
+      else {
         // `v_n' may be any representative with |v_n| < f_n: take the
         // one in [min_value, min_value + f_n), the only one that can
         // be in the range of the bounded integer type.
@@ -3084,15 +3081,23 @@ PPL::Grid::wrap_assign(const Variables_Set& vars,
           v_n += f_n;
         }
         v_n += min_value;
-        unconstrain(x);
-        add_constraint(x == v_n);
-      }
-      else {
-        // If overflow is impossible but the grid frequency is less than
-        // half the wrap frequency, then there is more than one possible
-        // value for `x' in the range of the bounded integer type,
-        // so the grid is unchanged.
-        PPL_ASSERT(o == OVERFLOW_IMPOSSIBLE && 2*f_n < wrap_frequency);
+        if (o == OVERFLOW_IMPOSSIBLE && v_n > max_value) {
+          // No value of `x' is in the range of the bounded integer type.
+          set_empty();
+          return;
+        }
+        if (f_n == wrap_frequency || v_n + f_n > max_value) {
+          // In these cases, `x' can only take a unique (ie constant)
+          // value.
+          unconstrain(x);
+          add_constraint(x == v_n);
+        }
+        else {
+          // If overflow is impossible and both `v_n' and `v_n + f_n' are
+          // in the range of the bounded integer type, then there is more
+          // than one possible value for `x', so the grid is unchanged.
+          PPL_ASSERT(o == OVERFLOW_IMPOSSIBLE && f_n < wrap_frequency);
+        }
       }
     }
     return;
